@@ -14,9 +14,11 @@ import vlib
 PID = "C14"
 
 QUICK = ["1x1", "1x4", "2x2:rmw:j", "2x8", "3x3:rmw:j", "4x4:rmw:j", "4x8",
-         "2x4:save", "3x2:save:j", "4x2:save"]
+         "2x4:save", "3x2:save:j", "4x2:save",
+         "4x4:fresh", "3x8:fresh", "4x2:fresh:j", "2x8:fresh"]   # fresh: nobody creates the record, the first updates race on an absent file
 THOROUGH_TLC = ["1x1", "1x8", "2x1:rmw:j", "2x2:rmw:j", "2x8:rmw:j", "3x3:rmw:j", "3x8", "4x1:rmw:j", "4x2:rmw:j", "4x4:rmw:j", "4x8:rmw:j",
-                "1x4:save", "2x4:save:j", "3x2:save:j", "4x2:save:j", "4x4:save:j"]
+                "1x4:save", "2x4:save:j", "3x2:save:j", "4x2:save:j", "4x4:save:j",
+                "4x4:fresh", "3x8:fresh", "4x2:fresh:j", "2x8:fresh", "4x8:fresh", "2x2:fresh", "3x3:fresh:j", "4x4:fresh:j"]
 THOROUGH_BULK = ["4x8:rmw:j", "4x8", "3x8:rmw:j", "2x8:rmw:j", "4x4:save:j"]
 
 
@@ -57,8 +59,15 @@ def _run(tier, seed, replay=None):
     cfg = "StatusFile_quick.cfg" if tier == "quick" else "StatusFile_full.cfg"
     r = vlib.tlc_must_pass("StatusFileMC", cfg, wd, timeout=1500)
     variants = {}
+    # first updates racing on a record nobody has created yet (3 actors x 1 operation; x 2 in thorough)
+    fresh_text = open(os.path.join(vlib.SPECS, "StatusFile_fresh.cfg")).read()
+    if tier != "quick":
+        fresh_text = fresh_text.replace("MaxOps = 1", "MaxOps = 2")
+    rf = vlib.tlc("StatusFileMC", "sf_fresh.cfg", wd, timeout=1500, cfg_text=fresh_text)
+    if not rf.ok:
+        raise vlib.Inconclusive("TLC did not succeed on the fresh-file configuration (exit %s, violated=%s)" % (rf.exit, rf.violated))
     for name, inv in (("StatusFile_wit_noloadlock.cfg", "NoTornRead"), ("StatusFile_wit_nosavelock.cfg", "NoTornRead"),
-                      ("StatusFile_wit_noreread.cfg", "NoLostUpdate")):
+                      ("StatusFile_wit_noreread.cfg", "NoLostUpdate"), ("StatusFile_wit_statbeforelock.cfg", "NoLostUpdate")):
         w = vlib.tlc("StatusFileMC", name, wd, timeout=600)
         if w.violated != inv:
             raise vlib.Inconclusive("variant %s did not violate %s (exit %s)" % (name, inv, w.exit))
@@ -111,13 +120,14 @@ def _run(tier, seed, replay=None):
         elif not res["violations"]:
             tot["traces"] += 0
     cov = {
-        "states": r.distinct, "transitions": r.generated, "traces_validated_against_impl": tot["traces"],
+        "states": r.distinct + rf.distinct, "transitions": r.generated + rf.generated, "traces_validated_against_impl": tot["traces"],
         "evaluations": tot["evaluations"], "distinct_nontrivial": tot["distinct"],
         "rule": "evaluations = completed operations (counting updates, blind updates, loads, saves) issued by all goroutines of all processes "
                 "through the real exported functions; distinct_nontrivial = lock sections of the status file that directly follow a section of a "
                 "DIFFERENT process in the recorded trace (a real cross-process hand-over of the lock), counted over all configurations",
         "samples": samples[:4], "exhaustive": False,
         "tlc": {"spec": "StatusFile.tla", "cfg": cfg, "generated": r.generated, "distinct": r.distinct, "depth": r.depth, "wall_s": round(r.wall, 1)},
+        "tlc_fresh_file": {"cfg": "StatusFile_fresh.cfg", "generated": rf.generated, "distinct": rf.distinct, "wall_s": round(rf.wall, 1)},
         "variants_violated": variants, "witnesses": wit,
         "trace_validation": tlc_runs, "trace_events_total": tot["events"], "trace_events_validated_by_tlc": tot["tlc_events"],
         "counters": tot["counters"], "configurations": allruns,
